@@ -21,6 +21,7 @@ int main()
         sa.sa_flags = SA_RESTART;
         sigaction(SIGUSR1, &sa, nullptr);
     }
+    bool const fmt_state = std::getenv("VERIF_COUT_STATE") != nullptr;
     std::string line;
     std::getline(std::cin, line);
     auto parts = split(line, ';');
@@ -32,6 +33,13 @@ int main()
         reader r(parts[i]);
         std::string op = r.word();
         if (op.empty()) continue;
+        if (fmt_state) {
+            // the program may leave ANY formatting state on std::cout between two terminal operations
+            std::cout.width(9);
+            std::cout.fill('*');
+            std::cout.setf(std::ios::left | std::ios::hex | std::ios::showbase | std::ios::uppercase | std::ios::boolalpha);
+            std::cout.precision(3);
+        }
         if (!apply_terminal_op(op, r, t)) {
             return 3;
         }
